@@ -135,6 +135,11 @@ def run(W, cfg):
         W.ob_close('a plane without a pixel scale: amplitude = spline interpolation divided by s', q3.amplitude, W.array(interp(A0)) / sv, tol)
         q4 = p.rescale(sv)
         W.ob_close('the first plane rescaled once more gives the same amplitude', q4.amplitude, q.amplitude, tol)
+    # an OPD map that is identically zero is still a map: it comes back with the new number of samples
+    pz = lt.Pupil(amplitude=A0, opd=rnp.zeros(shp), mask=mask.copy(), pixelscale=px, focal_length=10.0)
+    qz = pz.rescale(sv)
+    W.ob_true('an all-zero OPD map has ceil(n*s) samples per axis', tuple(rnp.shape(W.concrete(qz.opd))) == newshape)
+    W.ob_true('an all-zero OPD map stays zero', bool((W.concrete(qz.opd) == 0).all()))
     W.ob_true('original mask untouched', bool((W.concrete(p.mask) == mask).all()))
     W.ob_true('original tilt list untouched', len(p.tilt) == 0)
     # the rescaled plane is a plane of its own: bookkeeping done on it afterwards (a fitted tilt, an in-place edit of a scalar attribute)
@@ -163,6 +168,9 @@ def run(W, cfg):
     W.ob('resample: new pixel scale', [r.pixelscale[0], r.pixelscale[1]], [u / sv, u / sv])
     if cfg['amp'] == 'array':
         W.ob('resample = rescale(pixelscale / new pixelscale)', r.amplitude, q.amplitude)
+    same_ps = pu.resample(u)
+    W.ob_true('resample to the plane\'s own pixel scale still returns a new plane', not W.same(same_ps, pu))
+    W.ob('resample to the plane\'s own pixel scale: pixel scale unchanged', [same_ps.pixelscale[0], same_ps.pixelscale[1]], [u, u])
     try:
         p.resample(px[0])
         W.ob_true('non-uniform sampling refused', not W.is_true(px[0] != px[1]))
